@@ -27,6 +27,8 @@ ARCHS = {
     "dense1": lambda A, L: [("flatten",), ("linear", A * L, 2), ("act", "Tanh"), ("linear", 2, 2)],
     "dense1w": lambda A, L: [("flatten",), ("linear", A * L, 3), ("act", "GELU"), ("linear", 3, 2)],
     "dense2": lambda A, L: [("flatten",), ("linear", A * L, 2), ("act", "ReLU"), ("linear", 2, 2), ("act", "Sigmoid"), ("linear", 2, 2)],
+    "dense3": lambda A, L: [("flatten",), ("linear", A * L, 2), ("act", "Tanh"), ("linear", 2, 2), ("act", "GELU"), ("linear", 2, 2), ("act", "ELU"), ("linear", 2, 2)],
+    "conv2": lambda A, L: [("conv", A, 2, 2, 1, 0, 1), ("act", "ReLU"), ("avgpool", 2), ("flatten",), ("linear", 2 * ((L - 1) // 2), 2), ("act", "Tanh"), ("linear", 2, 2)],
     "conv": lambda A, L: [("conv", A, 2, 2, 1, 0, 1), ("act", "ELU"), ("flatten",), ("linear", 2 * (L - 1), 2)],
     "convpad": lambda A, L: [("conv", A, 1, 2, 1, 1, 1), ("act", "Softplus"), ("flatten",), ("linear", (L + 1), 2)],
     "convavg": lambda A, L: [("conv", A, 2, 2, 1, 0, 1), ("act", "SiLU"), ("avgpool", 2), ("flatten",), ("linear", 2 * ((L - 1) // 2), 2)],
@@ -233,7 +235,12 @@ def real_model(arch, A, L, seed=1, act_override=None):
 
 # ------------------------------------------------------------------ one symbolic run of the real deep_lift_shap
 
-def sym_inputs(ctx, A, L, B, ns):
+def sym_inputs(ctx, A, L, B, ns, concrete=None):
+    if concrete is not None:
+        # concrete sequences (enumerated by the configuration list); activations stay universally quantified
+        xc = np.array(concrete[0], dtype=object)
+        rc = np.array(concrete[1], dtype=object)
+        return xc, C.onehot_from_chars(xc, A, dtype="float32"), rc, C.onehot_from_chars(rc, A, dtype="float32")
     xc = C.sym_chars(ctx, "x", (B, L), A)
     X = C.onehot_from_chars(xc, A, dtype="float32")
     rc = C.sym_chars(ctx, "r", (B, ns, L), A)
